@@ -5,7 +5,8 @@ For every kept seeded change (/verif/seeded/<id>/: a realistic breaking change w
 independent sub-agent that saw only the property text): make a scratch worktree of /repo's HEAD
 outside /repo and /verif, apply the change there (3-way, so that it also applies on top of later
 fix commits), run the property's quick check against that tree (VERIF_REPO) and require exit 1
-with a `VIOLATION property=<id>` line; remove the worktree.  With --suite the pinned test-suite is
+with a `VIOLATION property=<id>` line, and the minimised replay file it names must reproduce the violation
+(exit 1, same event-log digest) in a fresh process against the changed tree; remove the worktree.  With --suite the pinned test-suite is
 run on the changed tree too and the outcome appended to seeded/SUITE_RESULTS.md (a seeded change
 is only interesting if the existing tests do not notice it).  Exit 0 iff every change is caught.
 """
@@ -62,6 +63,16 @@ def one(mid):
             viol = [ln for ln in p.stdout.splitlines() if ln.startswith(f"VIOLATION property={prop} ")]
             summ = next((ln for ln in p.stdout.splitlines() if "tier=quick" in ln and "runs=" in ln), "")
             caught = p.returncode == 1 and bool(viol)
+            if caught:
+                # the minimised replay file must reproduce the violation exactly, in a fresh process
+                rp = viol[0].split("replay=", 1)[1].strip()
+                r = sh([os.path.join(HERE, "check"), prop, "--replay", rp], env=env, cwd=HERE)
+                rep = [ln for ln in r.stdout.splitlines() if ln.startswith("REPRODUCED ")]
+                if r.returncode != 1 or not rep or "digest_match=True" not in rep[0]:
+                    caught = False
+                    summ += f" REPLAY DID NOT REPRODUCE ({r.returncode}: {r.stdout[-160:]!r})"
+                else:
+                    summ += " replay reproduces (digest match)"
         srow = None
         if suite:
             s = sh(["/usr/bin/env", "python3", os.path.join(HERE, "tools", "suite_check.py"), wt, f"/var/tmp/suite-{mid}-{os.getpid()}"])
